@@ -231,6 +231,274 @@ Example C18_nonvacuous :
   end.
 Proof. vm_compute. repeat split; try reflexivity. discriminate. Qed.
 
+(* ================================================================ NON-VACUITY (audit)
+   Every theorem of Section C18 is APPLIED (all Section hypotheses and all premises discharged at once)
+   to the instance of Module Example: classes are integers (negative = empty), codec JNum, three
+   strategy classes (U : a Strategy with four flags and two settings, V : a verification strategy,
+   the library's EmptyStrategy), an instance u_alias created through a subscripted alias (it carries
+   __orig_class__), all five rule forms, a specification with a lazily added empty rule. *)
+Module Audit.
+Import Example.
+Definition rev : strat -> Z -> bool := fun _ _ => true.
+Definition cap : strat -> Z -> option Z -> bool := fun _ _ _ => true.
+Lemma eqb_spec : forall a b : Z, Z.eqb a b = true <-> a = b.
+Proof. exact Z.eqb_eq. Qed.
+Lemma codec : forall c : Z, of_json (to_json c) = Ok c.
+Proof. reflexivity. Qed.
+Lemma empty_cat : cat_of strategy_module n_EmptyStrategy = Some CEmpty.
+Proof. reflexivity. Qed.
+
+Lemma u_ok : strat_ok cat_of user_from_dict u.
+Proof. vm_compute. reflexivity. Qed.
+Lemma ua_ok : strat_ok cat_of user_from_dict u_alias.
+Proof. vm_compute. reflexivity. Qed.
+Lemma v_ok : strat_ok cat_of user_from_dict v.
+Proof. vm_compute. reflexivity. Qed.
+Lemma e_ok : strat_ok cat_of user_from_dict empty_strategy.
+Proof. vm_compute. split; reflexivity. Qed.
+Lemma u_dict : strat_dict_ok u.       Proof. split; reflexivity. Qed.
+Lemma ua_dict : strat_dict_ok u_alias. Proof. split; reflexivity. Qed.
+Lemma v_dict : strat_dict_ok v.       Proof. split; reflexivity. Qed.
+Lemma e_dict : strat_dict_ok empty_strategy. Proof. split; reflexivity. Qed.
+
+(* the rule of Example.r with the aliased instance inside: an equivalence path made of an equivalence
+   rule of a reverse rule and an equivalence rule *)
+Definition base_a : rule Z := RRule Z u_alias 3 [2; -1].
+Definition r_a : rule Z := RPath Z [REquiv Z (RReverse Z base_a 0); REquiv Z base_a].
+Lemma r_a_ok : rule_ok Z Z.eqb is_empty cat_of decomp rev cap r_a = true.
+Proof. vm_compute. reflexivity. Qed.
+Lemma r_a_strats : rule_strats_all Z (strat_ok cat_of user_from_dict) r_a.
+Proof. simpl. repeat split; exact ua_ok. Qed.
+Lemma r_a_dicts : rule_strats_all Z strat_dict_ok r_a.
+Proof. simpl. repeat split. Qed.
+
+Definition pk : pack :=
+  mkPack (s2l "pk") [u; u_alias] [v] [v; empty_strategy] [[u_alias; u]; [u]] [u_alias] true.
+Lemma pk_ok : pack_ok cat_of user_from_dict pk.
+Proof.
+  unfold pack_ok, pk; simpl.
+  repeat split; repeat constructor; first [exact u_ok | exact ua_ok | exact v_ok | exact e_ok].
+Qed.
+Lemma pk_dicts : pack_dicts_ok pk.
+Proof.
+  unfold pack_dicts_ok, pk; simpl.
+  repeat split; repeat constructor; reflexivity.
+Qed.
+
+(* two specifications: s_a = Example.s0 (root 1; rules 1 -> (0, -1) by the aliased U, 0 verified by V,
+   and the lazily added EmptyStrategy rule of -1), s_b with root 2 and one more U rule *)
+Definition rules_a : list (rule Z) := [RRule Z u_alias 1 [0; -1]; RVerif Z v 0 []].
+Definition rules_b : list (rule Z) := [RRule Z u 2 [1; -1]; RRule Z u_alias 1 [0; -1]; RVerif Z v 0 []].
+Definition s_a : spec Z :=
+  mkSpec Z 1 [(1, RRule Z u_alias 1 [0; -1]); (0, RVerif Z v 0 []); (-1, RVerif Z empty_strategy (-1) [])].
+Definition s_b : spec Z :=
+  mkSpec Z 2 [(2, RRule Z u 2 [1; -1]); (1, RRule Z u_alias 1 [0; -1]); (0, RVerif Z v 0 []);
+              (-1, RVerif Z empty_strategy (-1) [])].
+Lemma s_a_init : spec_init Z Z.eqb is_empty cat_of decomp 1 rules_a = Ok s_a.
+Proof. vm_compute. reflexivity. Qed.
+Lemma s_b_init : spec_init Z Z.eqb is_empty cat_of decomp 2 rules_b = Ok s_b.
+Proof. vm_compute. reflexivity. Qed.
+Lemma rules_a_good :
+  Forall (fun r => rule_ok Z Z.eqb is_empty cat_of decomp rev cap r = true /\
+                   rule_strats_all Z (strat_ok cat_of user_from_dict) r) rules_a.
+Proof. repeat constructor; first [exact ua_ok | exact v_ok]. Qed.
+Lemma s_a_wf : spec_wf Z Z.eqb is_empty cat_of user_from_dict decomp rev cap s_a.
+Proof.
+  split; [reflexivity|]. split; [vm_compute; reflexivity|].
+  repeat constructor; first [exact ua_ok | exact v_ok | exact e_ok].
+Qed.
+Lemma s_b_wf : spec_wf Z Z.eqb is_empty cat_of user_from_dict decomp rev cap s_b.
+Proof.
+  split; [reflexivity|]. split; [vm_compute; reflexivity|].
+  repeat constructor; first [exact u_ok | exact ua_ok | exact v_ok | exact e_ok].
+Qed.
+Lemma s_a_dicts : spec_dicts_ok Z s_a.
+Proof. repeat constructor. Qed.
+
+(* a bijection between them: three entries in the order map, two in the index data *)
+Definition bj : bij Z :=
+  mkBij Z s_a s_b
+    [((1, 2), [1; 0]); ((0, 1), [0]); ((1, 1), [0; 1])]
+    [((1, 2), JArr [JNum 4; JStr (s2l "d")]); ((1, 1), JNum 7)].
+Lemma bj_wf : bij_wf Z Z.eqb is_empty cat_of user_from_dict decomp rev cap bj.
+Proof.
+  split; [exact s_a_wf|]. split; [exact s_b_wf|]. split; [reflexivity|]. split; [reflexivity|].
+  simpl. intros k [<-|[<-|[]]]; auto.
+Qed.
+End Audit.
+
+(* covers C18_strategy_roundtrip: the aliased instance is reloaded as the plain instance u, which is ==
+   the original in both directions although it is a different object (u <> u_alias) *)
+Example C18_strategy_roundtrip_nonvacuous :
+  strat_of_json Example.cat_of Example.user_from_dict (json_of_strat Example.cat_of Example.u_alias)
+    = Ok Example.u /\
+  strat_eq Example.u Example.u_alias = true /\ strat_eq Example.u_alias Example.u = true /\
+  Example.u <> Example.u_alias.
+Proof.
+  destruct (C18_strategy_roundtrip Example.cat_of Example.user_from_dict Example.u_alias Audit.ua_ok)
+    as [A B].
+  split; [exact A|]. destruct (B Audit.ua_dict) as [B1 B2].
+  split; [exact B1|]. split; [exact B2|discriminate].
+Qed.
+(* ... also for a verification strategy and the library's EmptyStrategy (the other to_jsonable shapes) *)
+Example C18_strategy_roundtrip_other_kinds :
+  strat_of_json Example.cat_of Example.user_from_dict (json_of_strat Example.cat_of Example.v) = Ok Example.v /\
+  strat_of_json Example.cat_of Example.user_from_dict (json_of_strat Example.cat_of empty_strategy)
+    = Ok empty_strategy.
+Proof.
+  split.
+  - exact (proj1 (C18_strategy_roundtrip Example.cat_of Example.user_from_dict Example.v Audit.v_ok)).
+  - exact (proj1 (C18_strategy_roundtrip Example.cat_of Example.user_from_dict empty_strategy Audit.e_ok)).
+Qed.
+
+(* covers C18_strategy_eq_kind_settings: both values of the comparison occur *)
+Example C18_strategy_eq_kind_settings_nonvacuous :
+  strat_eq Example.u_alias Example.u = settings_eq Example.u_alias Example.u /\
+  strat_eq Example.u_alias Example.v = settings_eq Example.u_alias Example.v /\
+  settings_eq Example.u_alias Example.u = true /\ settings_eq Example.u_alias Example.v = false.
+Proof.
+  split; [exact (proj1 (C18_strategy_eq_kind_settings Example.u_alias Example.u eq_refl eq_refl))|].
+  split; [exact (proj1 (C18_strategy_eq_kind_settings Example.u_alias Example.v eq_refl eq_refl))|].
+  split; reflexivity.
+Qed.
+(* ... and the hypothesis matters: an instance with another added attribute is NOT == its stripped form *)
+Example C18_strategy_eq_kind_settings_near_miss :
+  let w := mkStrat Example.M Example.U (Some (false, true, true, true)) [] [(Example.s2l "cache", 1)] in
+  only_orig_class w = false /\ strat_eq (strip w) w = false /\ settings_eq (strip w) w = true.
+Proof. vm_compute. repeat split. Qed.
+
+(* covers C18_loaded_strategy_plain *)
+Example C18_loaded_strategy_plain_nonvacuous : plain Example.u = true /\ plain Example.u_alias = false.
+Proof.
+  split; [|reflexivity].
+  apply (C18_loaded_strategy_plain Example.cat_of Example.user_from_dict
+           (json_of_strat Example.cat_of Example.u_alias) Example.u).
+  vm_compute. reflexivity.
+Qed.
+
+(* covers C18_rule_roundtrip (nested rule forms, aliased instances inside): reloaded as Example.r *)
+Example C18_rule_roundtrip_nonvacuous :
+  Example.rt Audit.r_a = Ok Example.r /\
+  rule_eq Z Z.eqb Example.is_empty Example.r Audit.r_a = true /\
+  rule_eq Z Z.eqb Example.is_empty Audit.r_a Example.r = true /\
+  Example.r <> Audit.r_a.
+Proof.
+  destruct (C18_rule_roundtrip Z Z.eqb Audit.eqb_spec Example.to_json Example.of_json Audit.codec
+              Example.is_empty Example.cat_of Example.user_from_dict Example.decomp Audit.rev Audit.cap
+              Audit.r_a Audit.r_a_ok Audit.r_a_strats) as [A [B _]].
+  split; [exact A|]. destruct (B Audit.r_a_dicts) as [B1 B2].
+  split; [exact B1|]. split; [exact B2|discriminate].
+Qed.
+(* ... the third conjunct, on the plain rule *)
+Example C18_rule_roundtrip_plain : Example.rt Example.r = Ok Example.r.
+Proof.
+  destruct (C18_rule_roundtrip Z Z.eqb Audit.eqb_spec Example.to_json Example.of_json Audit.codec
+              Example.is_empty Example.cat_of Example.user_from_dict Example.decomp Audit.rev Audit.cap
+              Example.r ltac:(vm_compute; reflexivity)
+              ltac:(simpl; repeat split; exact Audit.u_ok)) as [A [_ C]].
+  rewrite (C eq_refl) in A. exact A.
+Qed.
+(* rule_ok is not true of every rule: stored children that are not what the strategy produces *)
+Example C18_rule_ok_near_miss :
+  rule_ok Z Z.eqb Example.is_empty Example.cat_of Example.decomp Audit.rev Audit.cap
+          (RRule Z Example.u 3 [2; 0]) = false.
+Proof. vm_compute. reflexivity. Qed.
+
+(* covers C18_pack_roundtrip: lists of length 2, nested expansion groups, aliased instances *)
+Example C18_pack_roundtrip_nonvacuous :
+  pack_of_json Example.cat_of Example.user_from_dict (json_of_pack Example.cat_of Audit.pk)
+    = Ok (strip_pack Audit.pk) /\
+  pack_eq (strip_pack Audit.pk) Audit.pk = true /\ pack_eq Audit.pk (strip_pack Audit.pk) = true /\
+  strip_pack Audit.pk <> Audit.pk.
+Proof.
+  destruct (C18_pack_roundtrip Example.cat_of Example.user_from_dict Audit.pk Audit.pk_ok) as [A B].
+  split; [exact A|]. destruct (B Audit.pk_dicts) as [B1 B2].
+  split; [exact B1|]. split; [exact B2|discriminate].
+Qed.
+
+(* covers C18_spec_roundtrip *)
+Example C18_spec_roundtrip_nonvacuous :
+  spec_of_json Z Z.eqb Example.of_json Example.is_empty Example.cat_of Example.user_from_dict
+               Example.decomp Audit.rev Audit.cap (json_of_spec Z Example.to_json Example.cat_of Audit.s_a)
+    = Ok (strip_spec Z Audit.s_a) /\
+  spec_eq Z Z.eqb Example.is_empty (strip_spec Z Audit.s_a) Audit.s_a = true /\
+  spec_eq Z Z.eqb Example.is_empty Audit.s_a (strip_spec Z Audit.s_a) = true /\
+  strip_spec Z Audit.s_a <> Audit.s_a.
+Proof.
+  destruct (C18_spec_roundtrip Z Z.eqb Audit.eqb_spec Example.to_json Example.of_json Audit.codec
+              Example.is_empty Example.cat_of Example.user_from_dict Example.decomp Audit.rev Audit.cap
+              Audit.s_a Audit.s_a_wf) as [A [_ [_ [B _]]]].
+  split; [exact A|]. destruct (B Audit.s_a_dicts) as [B1 B2].
+  split; [exact B1|]. split; [exact B2|discriminate].
+Qed.
+(* spec_eq discriminates: two well-formed specifications that are not == *)
+Example C18_spec_eq_discriminates : spec_eq Z Z.eqb Example.is_empty Audit.s_a Audit.s_b = false.
+Proof. vm_compute. reflexivity. Qed.
+
+(* covers C18_constructed_spec_roundtrip (the object the constructor hands back, incl. the lazily
+   added rule of the empty class -1) *)
+Example C18_constructed_spec_roundtrip_nonvacuous :
+  spec_wf Z Z.eqb Example.is_empty Example.cat_of Example.user_from_dict Example.decomp Audit.rev Audit.cap
+          Audit.s_a /\
+  spec_of_json Z Z.eqb Example.of_json Example.is_empty Example.cat_of Example.user_from_dict
+               Example.decomp Audit.rev Audit.cap (json_of_spec Z Example.to_json Example.cat_of Audit.s_a)
+    = Ok (strip_spec Z Audit.s_a).
+Proof.
+  destruct (C18_constructed_spec_roundtrip Z Z.eqb Audit.eqb_spec Example.to_json Example.of_json
+              Audit.codec Example.is_empty Example.cat_of Example.user_from_dict Example.decomp
+              Audit.rev Audit.cap 1 Audit.rules_a Audit.s_a Audit.empty_cat Audit.rules_a_good
+              Audit.s_a_init) as [A [B _]].
+  split; assumption.
+Qed.
+(* ... its last conjunct (exact reproduction) on plainly created rules *)
+Example C18_constructed_spec_roundtrip_plain :
+  let rules := [RRule Z Example.u 1 [0; -1]; RVerif Z Example.v 0 []] in
+  let s := mkSpec Z 1 [(1, RRule Z Example.u 1 [0; -1]); (0, RVerif Z Example.v 0 []);
+                       (-1, RVerif Z empty_strategy (-1) [])] in
+  spec_of_json Z Z.eqb Example.of_json Example.is_empty Example.cat_of Example.user_from_dict
+               Example.decomp Audit.rev Audit.cap (json_of_spec Z Example.to_json Example.cat_of s) = Ok s.
+Proof.
+  intros rules s.
+  destruct (C18_constructed_spec_roundtrip Z Z.eqb Audit.eqb_spec Example.to_json Example.of_json
+              Audit.codec Example.is_empty Example.cat_of Example.user_from_dict Example.decomp
+              Audit.rev Audit.cap 1 rules s Audit.empty_cat
+              ltac:(repeat constructor; first [exact Audit.u_ok | exact Audit.v_ok])
+              ltac:(vm_compute; reflexivity)) as [_ [_ C]].
+  apply C. reflexivity.
+Qed.
+
+(* covers C18_bijection_roundtrip *)
+Example C18_bijection_roundtrip_nonvacuous :
+  exists b',
+    bij_of_json Z Z.eqb Example.of_json Example.is_empty Example.cat_of Example.user_from_dict
+                Example.decomp Audit.rev Audit.cap
+                (json_of_bij Z Z.eqb Example.to_json Example.cat_of Audit.bj) = Ok b' /\
+    b_spec Z b' = strip_spec Z Audit.s_a /\ b_other Z b' = strip_spec Z Audit.s_b /\
+    dget (pair_eqb Z Z.eqb) (1, 2) (b_order Z b') = Some [1; 0] /\
+    dget (pair_eqb Z Z.eqb) (0, 1) (b_order Z b') = Some [0] /\
+    dget (pair_eqb Z Z.eqb) (1, 1) (b_data Z b') = Some (JNum 7) /\
+    dget (pair_eqb Z Z.eqb) (0, 1) (b_data Z b') = None.
+Proof.
+  destruct (C18_bijection_roundtrip Z Z.eqb Audit.eqb_spec Example.to_json Example.of_json Audit.codec
+              Example.is_empty Example.cat_of Example.user_from_dict Example.decomp Audit.rev Audit.cap
+              Audit.bj Audit.bj_wf) as (b' & A & B & C & D & E).
+  exists b'. split; [exact A|]. split; [exact B|]. split; [exact C|].
+  rewrite !D, !E. repeat split.
+Qed.
+(* ... and the dump is a real object (not the JNull of the KeyError branch), with the classes array
+   in order of first occurrence *)
+Example C18_bijection_roundtrip_value :
+  match json_of_bij Z Z.eqb Example.to_json Example.cat_of Audit.bj with
+  | JObj kv => dget str_eqb k_classes kv = Some (JArr [JNum 1; JNum 2; JNum 0])
+  | _ => False
+  end.
+Proof. vm_compute. reflexivity. Qed.
+
+(* C18_decimal_keys has a satisfiable premise and a conclusion that discriminates *)
+Example C18_decimal_keys_nonvacuous :
+  Z_of_dec (dec_of_Z 120) = Some 120 /\ dec_of_Z 120 = [49; 50; 48] /\ Z_of_dec [49; 97] = None.
+Proof. split; [apply C18_decimal_keys; discriminate|split; reflexivity]. Qed.
+
 Print Assumptions C18_strategy_roundtrip.
 Print Assumptions C18_strategy_eq_kind_settings.
 Print Assumptions C18_loaded_strategy_plain.
